@@ -7,7 +7,37 @@ TRUSTED_BASE = [
     "tools/extract_consts.py (regenerates Replicon/Gen/Consts.lean from /repo on every run)",
 ]
 
+SYS_RULE = ("sys traces: a real server App and 1..3 real client Apps (MinimalPlugins + RepliconPlugins, TickPolicy::Manual) with the harness as "
+            "the network: every message is queued per client / direction / channel and delivered, held or (unreliable channel only) dropped by "
+            "explicit actions. Generated histories interleave world operations (spawn, despawn, insert, in-place mutation, removal, marker toggle, "
+            "visibility, relations, pre-spawn mappings, max message size), server frames with or without a tick, client frames, per-message "
+            "deliveries under six link moods (perfect, reliable channel held back, lossy, reordering, ack starvation, random), disconnects, "
+            "server restarts, and end with a quiescent flush. After every server frame the real message bytes are decoded with the model's "
+            "decoders (Model/Wire.lean) and after every client frame the client's real state (entity map, components, ConfirmHistory, "
+            "ServerUpdateTick) is compared with the server snapshot history. distinct_nontrivial = distinct cases with at least one sending "
+            "server frame and one client frame that holds entities. ")
+
 PROPS = {
+    "C08": {
+        "modules": ["Replicon.Props.C08"],
+        "theorems": [
+            "Replicon.C08.C08_refines",
+            "Replicon.C08.C08_query",
+            "Replicon.C08.C08_run_decision",
+            "Replicon.C08.C08_despawn",
+            "Replicon.Vis.step_preserves",
+        ],
+        "profiles": [{"name": "sys_vis", "shards": {"thorough": 8}}, {"name": "sys", "shards": {"thorough": 8}}],
+        "rule": SYS_RULE + "For C08: (1) model vs implementation: a Lean ClientVisibility cell per (client, entity) is stepped in lock step "
+                "(show / hide / replication run / despawn run) and its decision (nothing / despawn / whole entity / changes) is compared with "
+                "what the decoded real messages contain for that entity; (2) oracle: no update or mutate message to a client carries component "
+                "data of an entity whose is_visible is false for it; is_visible equals the most recent set_visibility of every live entity.",
+        "trusted_extra": [
+            "modelled, not verified: ClientVisibility as a product of independent per-entity cells (every method touches only the entity's own "
+            "list entry and set memberships); the order collect_despawns -> collect_changes -> update inside one replication run",
+        ],
+        "assumptions": ["known finding F14 (marker removal wipes the setting) is reported, not suppressed silently: only failures the trace checker tags [F14]"],
+    },
     "C14": {
         "modules": ["Replicon.Props.C14"],
         "theorems": [
@@ -143,6 +173,20 @@ PROPS = {
 }
 
 MANIFEST_TEXT = {
+    "C08": {
+        "text": "Lean theorems about an exact per-entity model of ClientVisibility for both policies: for every sequence of set_visibility calls "
+                "(including mutually cancelling calls inside a tick window), replication runs and despawns, the cell represents (most recent "
+                "setting, client holds the entity) and every run decides for the entity exactly: hidden & not held -> nothing, hidden & held -> "
+                "despawn, visible & not held -> whole entity, visible & held -> changes (C08_refines, C08_run_decision, C08_despawn, C08_query). "
+                "The one-step lemma is decided by the kernel over the complete finite state space (2 policies x 12 cells x 4 ghosts x 4 ops) and "
+                "lifted by induction; the failed first attempt exposed defect F19. The model is run in lock step with the real component on "
+                "thousands of generated histories per run, and the no-hidden-data oracle is evaluated on the decoded real messages.",
+        "design_ref": "DESIGN.md §7 C08",
+        "note": "The lifting from one entity's cell to the whole component (independence of entities) and the position of the visibility calls "
+                "inside send_replication are modelled, tied by the lock-step comparison. Known finding F14 is outside the theorem (the marker "
+                "removal is delivered to ClientVisibility as a despawn).",
+        "technique": "Lean 4 proof (kernel-decided finite one-step invariant lifted by induction over operation sequences) + lock-step model/implementation comparison on real traces",
+    },
     "C14": {
         "text": "Lean theorems: the hasher's byte input is an injective code of the registration sequence (order, kind, type name, priority, "
                 "independence; C14_input_injective), every FNV-1a step is a bijection and inputs differing in one byte hash differently "
